@@ -35,7 +35,12 @@ LEVEL_NOTE = ("Trusted: Coq kernel + vm_compute; hand-written model coq/Model/C2
               "is active; 'Blocked' = asleep with no further wake-up is the environment's choice (liveness of the "
               "peer is not claimed).  Wake-up delivery to SEVERAL sleeping senders (notify_all) is outside the "
               "single-sender model: it is checked on the real code only (multi-sender live scenario, oracle "
-              "blocked-sender-not-woken), as is the pinned-clock deadline oracle timed-send-outlives-timeout.")
+              "blocked-sender-not-woken), as is the pinned-clock deadline oracle timed-send-outlives-timeout.  In the "
+              "model 'handed to the transport' is Transport._send_user_message; what that function does with the data "
+              "(re-key gate with clear_to_send_timeout, dying transport) is checked on a real Transport at the "
+              "packetizer boundary only (transport-gate scenarios).  Not covered: a sendall overlapping a local "
+              "Transport.close(), which marks the transport inactive before unlinking its channels -- "
+              "_send_user_message then drops the chunk silently ('connection is dead'), as it does on the clean tree.")
 TECHNIQUE = "Coq proof (induction on fuel / wake-up lists) + source translator + vm_compute differential correspondence + watchdog / multi-thread oracles"
 
 MSG_DATA, MSG_EXT = 94, 95
@@ -619,6 +624,117 @@ def multi_sender_runs(ctx):
             ctx.fail(info[0], info[1], case=case, expected="every sender proceeds", observed=info[2])
 
 
+GATE_TIMEOUT = 0.3
+
+
+def gate_case(stderr, scenario, entry="sendall"):
+    """sendall on a real Channel attached to a real (never started) Transport, observed at the packetizer boundary
+    (Transport._send_message): Channel._send hands every chunk to Transport._send_user_message, which holds user data
+    back while a key re-negotiation is in progress (clear_to_send cleared) for at most clear_to_send_timeout.
+    Scenarios: open (no re-key), rekey-finishes (the gate re-opens in time), rekey-stalls (it never does),
+    rekey-stalls-midway (the gate closes after the first chunk and never re-opens), transport-dies-midway (the
+    transport's end-of-run sequence -- unlink every channel, then inactive -- after the first chunk).
+    Delivered-or-raises: a normal return means every byte reached the packetizer."""
+    from paramiko.transport import Transport
+    from paramiko.channel import Channel
+    from _loop import LoopSocket
+    import logging
+    logging.getLogger("paramiko").setLevel(logging.CRITICAL + 1)
+    t = Transport(LoopSocket())
+    t.active = True
+    t.clear_to_send_timeout = GATE_TIMEOUT
+    t.clear_to_send.set()
+    got = []
+    chan = Channel(5)
+    chan._set_transport(t)
+    chan._set_window(1 << 20, 1 << 15)
+    chan._set_remote_channel(9, 1000, 4096)
+    chan.out_max_packet_size = 64 + 6          # several chunks
+    t._channels.put(5, chan)
+    data = bytes(range(40, 40 + 20))
+
+    def midway():
+        if scenario == "rekey-stalls-midway":
+            t.clear_to_send.clear()
+        elif scenario == "transport-dies-midway":
+            for c in list(t._channels.values()):
+                c._unlink()
+            t.active = False
+
+    def send_message(m):
+        raw = m.asbytes()
+        if raw[0] in (MSG_DATA, MSG_EXT):
+            off = 9 if raw[0] == MSG_EXT else 5
+            got.append((raw[0], raw[off + 4:]))
+            if len(got) == 1:
+                midway()
+
+    t._send_message = send_message
+    helper = None
+    if scenario in ("rekey-stalls", "rekey-finishes"):
+        t.clear_to_send.clear()
+    if scenario == "rekey-finishes":
+        helper = threading.Timer(GATE_TIMEOUT / 4.0, t.clear_to_send.set)
+        helper.daemon = True
+        helper.start()
+    fobj = None
+    if entry == "file":
+        fobj = chan.makefile_stderr("wb") if stderr else chan.makefile("wb")
+
+        def fn(a):
+            fobj.write(a)
+            return fobj.flush()
+    else:
+        fn = chan.sendall_stderr if stderr else chan.sendall
+    kind, val, th = watchdog(lambda: fn(data), WATCHDOG + 4 * GATE_TIMEOUT)
+    if helper is not None:
+        helper.join(2.0)
+    if kind == "hang":
+        chan.closed = True
+        t.active = False
+        t.clear_to_send.set()
+        th.join(2.0)
+    if fobj is not None:
+        import io
+        fobj._wbuffer = io.BytesIO()
+    sent = b"".join(p for _, p in got)
+    obs = {"outcome": "returned" if kind == "ok" else ("hang" if kind == "hang" else type(val).__name__),
+           "bytes_at_packetizer": len(sent), "bytes_given": len(data), "chunks": len(got),
+           "transport_active": bool(t.active), "channel_closed": bool(chan.closed)}
+    case = {"gate": True, "scenario": scenario, "stderr": stderr, "entry": entry,
+            "clear_to_send_timeout": GATE_TIMEOUT}
+    chan.closed = True                                  # cleanup: nothing to do in __del__
+    t.active = False
+    prob = None
+    want = MSG_EXT if stderr else MSG_DATA
+    if kind == "hang":
+        prob = ("sendall-hangs-behind-rekey", "sendall does not return although the re-key gate has a timeout")
+    elif kind == "ok" and sent != data:
+        prob = ("sendall-returned-but-transport-dropped-data", "sendall returned normally although not every byte "
+                "was handed to the packetizer (the transport held the data back for a stalled key re-negotiation and "
+                "dropped it)")
+    elif not data.startswith(sent) or any(tp != want for tp, _ in got):
+        prob = ("sendall-sent-wrong-bytes", "bytes at the packetizer are not a prefix of the data / wrong stream")
+    elif scenario in ("open", "rekey-finishes") and kind != "ok":
+        prob = ("sendall-raised-although-sendable", "sendall raised although the transport could send")
+    elif scenario in ("rekey-stalls", "rekey-stalls-midway", "transport-dies-midway") and kind != "exc":
+        prob = ("sendall-returned-but-transport-dropped-data", "sendall must raise when the transport cannot take "
+                "the data")
+    return case, obs, prob
+
+
+def gate_runs(ctx):
+    for scenario in ("open", "rekey-finishes", "rekey-stalls", "rekey-stalls-midway", "transport-dies-midway"):
+        for stderr in (False, True):
+            for entry in (("sendall", "file") if scenario in ("rekey-stalls", "open") else ("sendall",)):
+                case, obs, prob = gate_case(stderr, scenario, entry)
+                ctx.count(("gate", scenario, stderr, entry), kind="transport-gate")
+                if prob:
+                    ctx.fail(prob[0], prob[1], case=case, expected="delivered to the packetizer, or an exception",
+                             observed=obs)
+    ctx.sample({"transport-gate": {"case": case, "observed": obs}})
+
+
 def run(ctx):
     rng = ctx.rng
     scale = 8 if ctx.thorough else 1
@@ -629,7 +745,9 @@ def run(ctx):
                 "mode x prior event x stream x window on an unmodified Channel with a real second thread; the argument as "
                 "bytes / bytearray / memoryview / str (ASCII and multi-byte text; non-ASCII text is judged by the oracle "
                 "only: bytes handed over == text.encode()), through sendall(_stderr) or ChannelFile/ChannelStderrFile "
-                "write+flush; several senders asleep on one channel; a case is "
+                "write+flush; several senders asleep on one channel; sendall behind the transport's re-key gate (open, "
+                "finishing, stalled, stalling midway) and across the transport's death, observed at the packetizer; "
+                "a case is "
                 "non-trivial when the data is non-empty and it needs >= 2 chunks, or raises, or has events")
     ctx.trusted += ["model coq/Model/C25.v is hand-written; tied to paramiko/channel.py (sendall, sendall_stderr, "
                     "send, send_stderr, _send, _wait_for_send_window, _window_adjust, close, _handle_close, _unlink, "
@@ -742,6 +860,7 @@ def run(ctx):
             if lhangs >= 3:
                 break
         multi_sender_runs(ctx)
+        gate_runs(ctx)
         # one real timed wait that runs out (0.2 s)
         chan, tr = new_channel(0, 69, 0.2)
         kind, val, th = watchdog(lambda: chan.sendall(b"abc"), WATCHDOG)
@@ -762,6 +881,15 @@ def run(ctx):
 
 def replay(ctx, rep):
     case = rep.get("case") or {}
+    if isinstance(case, dict) and case.get("gate"):
+        if ctx.proof is None:
+            ctx.prove()
+        c, obs, prob = gate_case(case["stderr"], case["scenario"], case.get("entry", "sendall"))
+        ctx.count(("replay", repr(c)))
+        ctx.count(("replay2", repr(c)))
+        if prob:
+            ctx.fail(prob[0], prob[1], case=c, expected="delivered to the packetizer, or an exception", observed=obs)
+        return
     if isinstance(case, dict) and case.get("multi"):
         if ctx.proof is None:
             ctx.prove()
